@@ -311,4 +311,198 @@ def shaped (d : Draft) (s : Json) : Bool := shapedN false d (s.size + 1) s
 /-- well shaped, references allowed (the domain of C03) -/
 def shapedR (d : Draft) (s : Json) : Bool := shapedN true d (s.size + 1) s
 
+
+/-! ### the clauses of `validN` and `shapedN`, one schema member at a time
+
+`validN env d (n+1) (.obj kvs) i = kvs.all (clause env d (validN env d n) kvs i)` and the analogous
+equation for `shapedN` hold by `rfl` (JS.Proofs.Valid: `validN_succ_obj`, `shapedN_succ_obj`); the
+clauses are stated separately so that the specification with references (JS.Spec.ValidRef) can
+reuse them with another notion of validity under subschemas. -/
+
+open Lean in
+/-- a key as an explicit list of characters (comparisons then never decode a string literal, which
+    is slow in the kernel) -/
+macro "k!" s:str : term => do
+  let cs := s.getString.toList
+  let elems := cs.map fun c => Syntax.mkCharLit c
+  `(([$(elems.toArray),*] : Str))
+
+def clNum (d : Draft) (kvs : List (Str × Json)) (k : Str) (v : Json) (x : Num) : Bool :=
+  if k = k!"minimum" then
+    (match isNum v with
+     | some b => if !(d = .d6 || d = .d7) && flag "exclusiveMinimum" kvs then decide (val b < val x) else decide (val b ≤ val x)
+     | none => true)
+  else if k = k!"maximum" then
+    (match isNum v with
+     | some b => if !(d = .d6 || d = .d7) && flag "exclusiveMaximum" kvs then decide (val x < val b) else decide (val x ≤ val b)
+     | none => true)
+  else if k = k!"exclusiveMinimum" ∧ (d = .d6 || d = .d7) then (match isNum v with | some b => decide (val b < val x) | none => true)
+  else if k = k!"exclusiveMaximum" ∧ (d = .d6 || d = .d7) then (match isNum v with | some b => decide (val x < val b) | none => true)
+  else if (k = k!"multipleOf" ∧ d ≠ .d3) ∨ (k = k!"divisibleBy" ∧ d = .d3) then
+    (match isNum v with | some m => decide ((val x / val m).den = 1) | none => true)
+  else true
+
+def clStr (env : Env) (k : Str) (v : Json) (str : Str) : Bool :=
+  if k = k!"minLength" then (match natBound v with | some m => decide (m ≤ (str.length : Rat)) | none => true)
+  else if k = k!"maxLength" then (match natBound v with | some m => decide ((str.length : Rat) ≤ m) | none => true)
+  else if k = k!"pattern" then (match v with | .str p => rx env p str | _ => true)
+  else true
+
+def clArr (d : Draft) (sub : Json → Json → Bool) (kvs : List (Str × Json)) (k : Str) (v : Json)
+    (xs : List Json) : Bool :=
+  if k = k!"items" then
+    (match v with
+     | .arr ss => (xs.zip ss).all (fun p => sub p.2 p.1)
+     | sch => xs.all (fun x => sub sch x))
+  else if k = k!"additionalItems" then
+    (match lookupJ "items" kvs with
+     | some (.arr ss) =>
+       (match v with
+        | .bool false => decide (xs.length ≤ ss.length)
+        | .bool true => true
+        | sch => (xs.drop ss.length).all (fun x => sub sch x))
+     | _ => true)
+  else if k = k!"minItems" then (match natBound v with | some m => decide (m ≤ (xs.length : Rat)) | none => true)
+  else if k = k!"maxItems" then (match natBound v with | some m => decide ((xs.length : Rat) ≤ m) | none => true)
+  else if k = k!"uniqueItems" then (if isTrueJ v then allDistinct xs else true)
+  else if k = k!"contains" ∧ (d = .d6 || d = .d7) then xs.any (fun x => sub v x)
+  else true
+
+def clObj (env : Env) (d : Draft) (sub : Json → Json → Bool) (kvs : List (Str × Json)) (i : Json)
+    (k : Str) (v : Json) (ms : List (Str × Json)) : Bool :=
+  if k = k!"properties" then
+    (match v with
+     | .obj ps =>
+       ms.all (fun m => match Json.lookup m.1 ps with | some s => sub s m.2 | none => true)
+       && (d ≠ .d3 || ps.all (fun p =>
+             match p.2 with
+             | .obj pk => (match lookupJ "required" pk with
+                           | some (.bool true) => Json.hasKey p.1 ms
+                           | _ => true)
+             | _ => true))
+     | _ => true)
+  else if k = k!"patternProperties" then
+    (match v with
+     | .obj pps => ms.all (fun m => pps.all (fun p => !rx env p.1 m.1 || sub p.2 m.2))
+     | _ => true)
+  else if k = k!"additionalProperties" then
+    (match v with
+     | .bool true => true
+     | .bool false => ms.all (fun m => covered env kvs m.1)
+     | sch => ms.all (fun m => covered env kvs m.1 || sub sch m.2))
+  else if k = k!"required" ∧ d ≠ .d3 then
+    (match v with | .arr rs => rs.all (fun r => match r with | .str r => Json.hasKey r ms | _ => true) | _ => true)
+  else if k = k!"minProperties" ∧ d ≠ .d3 then (match natBound v with | some m => decide (m ≤ (ms.length : Rat)) | none => true)
+  else if k = k!"maxProperties" ∧ d ≠ .d3 then (match natBound v with | some m => decide ((ms.length : Rat) ≤ m) | none => true)
+  else if k = k!"dependencies" then
+    (match v with
+     | .obj ds => ds.all (fun dp =>
+         !Json.hasKey dp.1 ms ||
+         (match dp.2 with
+          | .arr names => names.all (fun r => match r with | .str r => Json.hasKey r ms | _ => true)
+          | .str r => if d = .d3 then Json.hasKey r ms else true
+          | sch => sub sch i))
+     | _ => true)
+  else if k = k!"propertyNames" ∧ (d = .d6 || d = .d7) then ms.all (fun m => sub v (.str m.1))
+  else true
+
+/-- the clauses that depend on the type of the instance -/
+def clTyped (env : Env) (d : Draft) (sub : Json → Json → Bool) (kvs : List (Str × Json)) (i : Json)
+    (k : Str) (v : Json) : Bool :=
+  match i with
+  | .num x => clNum d kvs k v x
+  | .str str => clStr env k v str
+  | .arr xs => clArr d sub kvs k v xs
+  | .obj ms => clObj env d sub kvs i k v ms
+  | _ => true
+
+/-- what `Spec.validN` says about one member `(k, v)` of the schema object `kvs`, with `sub` the
+    validity under subschemas -/
+def clause (env : Env) (d : Draft) (sub : Json → Json → Bool) (kvs : List (Str × Json)) (i : Json) :
+    Str × Json → Bool := fun (k, v) =>
+  if k = k!"type" ∧ d ≠ .d3 then
+    (match v with
+     | .str t => hasType d t i
+     | .arr ts => ts.any (fun t => match t with | .str t => hasType d t i | _ => false)
+     | _ => true)
+  else if k = k!"type" then
+    (match v with
+     | .str t => hasType d t i
+     | .arr ts => ts.any (fun t => match t with | .str t => hasType d t i | .obj _ => sub t i | _ => false)
+     | _ => true)
+  else if k = k!"disallow" ∧ d = .d3 then
+    (match v with
+     | .str t => !hasType d t i
+     | .arr ts => ts.all (fun t => match t with | .str t => !hasType d t i | .obj _ => !sub t i | _ => true)
+     | _ => true)
+  else if k = k!"extends" ∧ d = .d3 then
+    (match v with | .obj _ => sub v i | .arr ss => ss.all (fun s => sub s i) | _ => true)
+  else if k = k!"enum" then (match v with | .arr es => es.any (jsonEq i) | _ => true)
+  else if k = k!"const" ∧ (d = .d6 || d = .d7) then jsonEq i v
+  else if k = k!"allOf" ∧ d ≠ .d3 then (match v with | .arr ss => ss.all (fun s => sub s i) | _ => true)
+  else if k = k!"anyOf" ∧ d ≠ .d3 then (match v with | .arr ss => ss.any (fun s => sub s i) | _ => true)
+  else if k = k!"oneOf" ∧ d ≠ .d3 then (match v with | .arr ss => (ss.filter (fun s => sub s i)).length == 1 | _ => true)
+  else if k = k!"not" ∧ d ≠ .d3 then !sub v i
+  else if k = k!"if" ∧ d = .d7 then
+    (if sub v i then (match lookupJ "then" kvs with | some t => sub t i | none => true)
+     else (match lookupJ "else" kvs with | some e => sub e i | none => true))
+  else clTyped env d sub kvs i k v
+
+/-- what `Spec.shapedN` requires of one member of a schema object (`sub`: shape of subschemas) -/
+def shapeClause (d : Draft) (sub : Json → Bool) : Str × Json → Bool := fun (k, v) =>
+  if k = k!"type" ∧ d ≠ .d3 then
+    (match v with
+     | .str t => (typeNames d).contains t
+     | .arr ts => ts.all (fun t => match t with | .str t => (typeNames d).contains t | _ => false)
+     | _ => false)
+  else if (k = k!"type" ∨ k = k!"disallow") ∧ d = .d3 then
+    (match v with
+     | .str _ => true
+     | .arr ts => ts.all (fun t => match t with | .str _ => true | .obj _ => sub t | _ => false)
+     | _ => false)
+  else if k = k!"extends" ∧ d = .d3 then
+    (match v with | .obj _ => sub v | .arr ss => ss.all (fun s => s.isObj && sub s) | _ => false)
+  else if k = k!"enum" then v.isArr
+  else if (k = k!"allOf" ∨ k = k!"anyOf" ∨ k = k!"oneOf") ∧ d ≠ .d3 then
+    (match v with | .arr ss => !ss.isEmpty && ss.all sub | _ => false)
+  else if k = k!"not" ∧ d ≠ .d3 then sub v
+  else if k = k!"if" ∧ d = .d7 then sub v
+  else if (k = k!"then" ∨ k = k!"else") ∧ d = .d7 then sub v
+  else if k = k!"minimum" ∨ k = k!"maximum" then v.isNumJ
+  else if (k = k!"exclusiveMinimum" ∨ k = k!"exclusiveMaximum") then (if (d = .d6 || d = .d7) then v.isNumJ else isBoolV v)
+  else if (k = k!"multipleOf" ∧ d ≠ .d3) ∨ (k = k!"divisibleBy" ∧ d = .d3) then
+    (match v with | .num m => decide (0 < val m) | _ => false)
+  else if k = k!"minLength" ∨ k = k!"maxLength" ∨ k = k!"minItems" ∨ k = k!"maxItems" then isNonNegInt d v
+  else if (k = k!"minProperties" ∨ k = k!"maxProperties") ∧ d ≠ .d3 then isNonNegInt d v
+  else if k = k!"pattern" ∨ k = k!"format" then isStrJ v
+  else if k = k!"items" then
+    (match v with
+     | .arr ss => ss.all sub
+     | .obj _ => sub v
+     | .bool _ => (d = .d6 || d = .d7)
+     | _ => false)
+  else if k = k!"additionalItems" ∨ k = k!"additionalProperties" then
+    (match v with | .bool _ => true | .obj _ => sub v | _ => false)
+  else if k = k!"uniqueItems" then isBoolV v
+  else if k = k!"contains" ∧ (d = .d6 || d = .d7) then sub v
+  else if k = k!"propertyNames" ∧ (d = .d6 || d = .d7) then sub v
+  else if k = k!"properties" then
+    (match v with | .obj ps => ps.all (fun p => ((d = .d6 || d = .d7) || p.2.isObj) && sub p.2) | _ => false)
+  else if k = k!"patternProperties" then
+    (match v with | .obj ps => ps.all (fun p => ((d = .d6 || d = .d7) || p.2.isObj) && sub p.2) | _ => false)
+  else if k = k!"required" ∧ d ≠ .d3 then
+    (match v with | .arr rs => rs.all isStrJ | _ => false)
+  else if k = k!"required" ∧ d = .d3 then isBoolV v
+  else if k = k!"dependencies" then
+    (match v with
+     | .obj ds => ds.all (fun dp =>
+         match dp.2 with
+         | .arr names => names.all isStrJ
+         | .str _ => d = .d3
+         | .obj _ => sub dp.2
+         | .bool _ => (d = .d6 || d = .d7)
+         | _ => false)
+     | _ => false)
+  else true
+
 end JS.Spec
